@@ -23,7 +23,8 @@ L = {'op': 'loop'}
 # (failed/ERR, failed/SIGTERM ...) or as an abort (aborted/<reason>)
 RECEIVED_TEXTS = ['submitted', 'started', 'succeeded', 'failed', 'failed/ERR', 'aborted/by the job script',
                   'submission failed', 'xx', 'hello']
-POLLED_TEXTS = ['submitted', 'started', 'succeeded', 'failed', 'failed/SIGKILL', 'submission failed', 'xx',
+# poll results are job states fed through the real jobs-poll callbacks ('killed' = died without its error trap)
+POLLED_TEXTS = ['submitted', 'started', 'succeeded', 'failed', 'failed/SIGKILL', 'killed', 'submission failed', 'xx',
                 'vacated/SIGUSR1']
 
 
@@ -169,7 +170,7 @@ def probe_op(i, pr):
     return _poll(i, payload, sn)
 
 
-CHUNK = 10     # N_CORE = 19: the first two chunks
+CHUNK = 10     # N_CORE = 20: the first two chunks
 
 
 def comp_case(prefix, retries, chunk, second=None):
@@ -221,7 +222,7 @@ def comp_cases(tier, rng):
     return cases
 
 
-GEN_OPTS = {'polls': True, 'noise': 0.35, 'p_poll_late': 0.0, 'fail_signals': True, 'p_lose': 0.12, 'p_vacate': 0.1}
+GEN_OPTS = {'polls': True, 'noise': 0.35, 'p_poll_late': 0.0, 'fail_signals': True, 'silent_kill': True, 'p_lose': 0.12, 'p_vacate': 0.1}
 
 
 class MsgProp(SchedProp):
@@ -378,7 +379,7 @@ class C09(MsgProp):
             'started-before-submitted, and waiting for the automatic retry with the failed job\'s duplicates / late messages / '
             'poll results arriving: polled and internal ones at once, received ones in the same message batch) x up to 39 probes (internal submit results, received messages of the same / older / '
             'newer submit number for 9 message kinds incl. failures with a run signal (failed/ERR, aborted/...), polled '
-            'results incl. signal kills, a job vacation and those of the previous job; the 19 current-job probes run in every tier), one probe per task '
+            'results incl. signal kills, a job vacation and those of the previous job; the 20 current-job probes run in every tier), one probe per task '
             'instance of a one-cycle workflow in the real scheduler (thorough: pairs of probes); plus generated workflows '
             'under the seeded adaptive schedule with duplicate/stale/out-of-order/lost messages, failures reported with run '
             'signals, job vacations, answered and routine polls '
